@@ -60,6 +60,8 @@ def run_solver(solver, text, timeout):
 
 
 def group_query(g, items=None, twin=False):
+    if g["form"] == "U":
+        return "\n".join(q["smt"] for q in g["raw"])
     its = g["items"] if items is None else items
     s = g["preamble"]
     if g["form"] == "R":
@@ -79,6 +81,12 @@ def group_query(g, items=None, twin=False):
         s += "))\n"
     s += "(check-sat)\n"
     return s
+
+
+def gkey(f, gi, g):
+    if g["items"] or g.get("raw"):
+        return hashlib.sha256(group_query(g).encode()).hexdigest()
+    return "trivial-%s-%d" % (f, gi)
 
 
 def parse_value(v):
@@ -115,8 +123,41 @@ def extract_model(g, query, timeout):
     return model
 
 
+CVC5 = "cvc5"
+
+
+def run_cvc5(text, timeout):
+    t = time.time()
+    try:
+        r = subprocess.run([CVC5, "--lang", "smt2", "--tlimit=%d" % (timeout * 1000)], input=text, stdout=subprocess.PIPE, stderr=subprocess.STDOUT, text=True, timeout=timeout + 20)
+    except subprocess.TimeoutExpired:
+        return "timeout", time.time() - t, ""
+    out = r.stdout.strip()
+    first = out.split("\n")[0].strip() if out else ""
+    if "(error" in out:
+        return "error", time.time() - t, out[:500]
+    return (first if first in ("sat", "unsat") else "unknown"), time.time() - t, out[:500]
+
+
+def solve_raw_group(args):
+    job_file, gi, g, timeout, second = args
+    res = {"job": job_file, "group": g["name"], "form": "U", "n_items": len(g["raw"]), "claim": g["claim"], "raw_results": [], "z3_s": 0.0, "cvc5_s": 0.0}
+    for q in g["raw"]:
+        v, dt, _ = run_solver(Z3, q["smt"], timeout)
+        v2, dt2, _ = run_cvc5(q["smt"], timeout)
+        res["z3_s"] += dt
+        res["cvc5_s"] += dt2
+        res["raw_results"].append({"name": q["name"], "expect": q["expect"], "z3": v, "cvc5": v2})
+    res["z3_s"] = round(res["z3_s"], 3)
+    res["cvc5_s"] = round(res["cvc5_s"], 3)
+    res["verdict"] = "unsat" if all(r["z3"] == r["expect"] and r["cvc5"] == r["expect"] for r in res["raw_results"]) else "mixed"
+    return res
+
+
 def solve_group(args):
     job_file, gi, g, timeout, second = args
+    if g["form"] == "U":
+        return solve_raw_group(args)
     res = {"job": job_file, "group": g["name"], "form": g["form"], "n_items": len(g["items"]), "n_vars": len(g["vars"]), "n_inverses": g["n_inverses"], "n_terms": g["n_terms"], "claim": g["claim"]}
     if not g["items"]:
         res.update(verdict="unsat", trivial=True, z3_s=0.0, twin="n/a")
@@ -197,7 +238,7 @@ def main():
         for gi, g in enumerate(j["groups"]):
             if g["form"] == "R" and g.get("only_if_failed"):
                 continue
-            key = hashlib.sha256(group_query(g).encode()).hexdigest() if g["items"] else "trivial-%s-%d" % (f, gi)
+            key = gkey(f, gi, g)
             if key in seen:
                 seen[key].append((f, gi))
                 continue
@@ -216,8 +257,8 @@ def main():
     for f, j in jobs:
         verd = {}
         for gi, g in enumerate(j["groups"]):
-            if g["form"] != "R" and g["items"]:
-                verd[g["name"]] = results[hashlib.sha256(group_query(g).encode()).hexdigest()]["verdict"]
+            if g["form"] not in ("R", "U") and g["items"]:
+                verd[g["name"]] = results[gkey(f, gi, g)]["verdict"]
         for gi, g in enumerate(j["groups"]):
             if g["form"] == "R" and g.get("only_if_failed") and verd.get(g.get("only_if_failed")) == "sat":
                 rwork.append(((f, gi, g, timeout, False), "R-%s-%d" % (f, gi)))
@@ -248,8 +289,23 @@ def main():
         for gi, g in enumerate(j["groups"]):
             if g["form"] == "R" and g.get("only_if_failed"):
                 continue
+            if g["form"] == "U":
+                key = gkey(f, gi, g)
+                res = results[key]
+                if seen[key][0] == (f, gi):
+                    solver_s += res.get("z3_s", 0) + res.get("cvc5_s", 0)
+                for rr in res.get("raw_results", []):
+                    obligations += 1
+                    if rr["z3"] == rr["expect"] and rr["cvc5"] == rr["expect"]:
+                        discharged += 1
+                    elif rr["z3"] in ("sat", "unsat") and rr["z3"] == rr["cvc5"]:
+                        violations.append({"job": f, "scenario": j["scenario"], "kind": "solver-U", "what": rr["name"], "detail": "expected %s, both solvers say %s" % (rr["expect"], rr["z3"]), "replay": j.get("replay"), "claim": g["claim"]})
+                    else:
+                        inconclusive.append("%s/%s: z3 %s, cvc5 %s (expected %s)" % (j["scenario"], rr["name"], rr["z3"], rr["cvc5"], rr["expect"]))
+                jr["groups"].append({"group": g["name"], "form": "U", "verdict": res["verdict"], "n_items": len(g.get("raw", [])), "z3_s": res.get("z3_s"), "cvc5_s": res.get("cvc5_s")})
+                continue
             if g["form"] == "R":
-                key = hashlib.sha256(group_query(g).encode()).hexdigest() if g["items"] else "trivial-%s-%d" % (f, gi)
+                key = gkey(f, gi, g)
                 res = results[key]
                 obligations += 1
                 if seen[key][0] == (f, gi):
@@ -262,7 +318,7 @@ def main():
                     inconclusive.append("%s/%s: solver verdict %s" % (j["scenario"], g["name"], res["verdict"]))
                 jr["groups"].append({k: res.get(k) for k in ("group", "form", "verdict", "n_items", "n_vars", "n_inverses", "n_terms", "z3_s", "query_sha")})
                 continue
-            key = hashlib.sha256(group_query(g).encode()).hexdigest() if g["items"] else "trivial-%s-%d" % (f, gi)
+            key = gkey(f, gi, g)
             res = results[key]
             n = len(g["items"])
             obligations += n
@@ -297,9 +353,10 @@ def main():
             jr["groups"].append({k: res.get(k) for k in ("group", "form", "verdict", "n_items", "n_vars", "n_inverses", "n_terms", "z3_s", "twin", "z3new", "query_sha")})
         per_job.append(jr)
         if len(samples) < 3 and j["groups"]:
-            g = j["groups"][0]
-            g = [x for x in j["groups"] if x["form"] != "R"][0] if [x for x in j["groups"] if x["form"] != "R"] else j["groups"][0]
-            samples.append({"scenario": j["scenario"], "shape": j.get("shape"), "params": j.get("params"), "concrete": j.get("concrete"), "group": g["name"], "claim": g["claim"], "items": [i["name"] for i in g["items"]][:12], "n_vars": len(g["vars"]), "vars_head": g["vars"][:12], "verdict": results[hashlib.sha256(group_query(g).encode()).hexdigest() if g["items"] else "trivial-%s-0" % f]["verdict"], "path_conditions_head": j.get("path_conditions", [])[:4]})
+            cands = [(gi, x) for gi, x in enumerate(j["groups"]) if not (x["form"] == "R" and x.get("only_if_failed"))]
+            if cands:
+                gi, g = cands[0]
+                samples.append({"scenario": j["scenario"], "shape": j.get("shape"), "params": j.get("params"), "concrete": j.get("concrete"), "group": g["name"], "form": g["form"], "claim": g["claim"], "items": ([i["name"] for i in g["items"]] + [q["name"] for q in g.get("raw", [])])[:12], "n_vars": len(g["vars"]), "vars_head": g["vars"][:12], "verdict": results[gkey(f, gi, g)]["verdict"], "path_conditions_head": j.get("path_conditions", [])[:4]})
     # --- replay violations natively
     reproduced = []
     os.makedirs(os.path.join(VERIF, "replays", prop), exist_ok=True)
